@@ -216,6 +216,7 @@ fn random_lane(id: &str, tier: Tier, lane: usize, seed: u64, cases: u32, tape_ma
     let res = RefCell::new(LaneResult::default());
     let worker = RefCell::new(WorkerHandle::new(id, tier));
     let failed_once = RefCell::new(false);
+    let slow_failures = RefCell::new(0u32);
     let config = Config {
         cases,
         failure_persistence: None,
@@ -231,6 +232,10 @@ fn random_lane(id: &str, tier: Tier, lane: usize, seed: u64, cases: u32, tape_ma
     let strat = proptest::collection::vec(proptest::prelude::any::<u8>(), 0..=tape_max);
     let out = runner.run(&strat, |tape| {
         let shrinking = *failed_once.borrow();
+        if shrinking && *slow_failures.borrow() > 40 {
+            // every evaluation of a diverging case costs the whole (reduced) CPU budget: stop shrinking it here, ddmin has its own cap
+            return Ok(());
+        }
         let mut r = res.borrow_mut();
         let n = r.evaluated;
         let render = !shrinking && (n < 48 || n % 97 == 0);
@@ -258,6 +263,9 @@ fn random_lane(id: &str, tier: Tier, lane: usize, seed: u64, cases: u32, tape_ma
             Exec::NotApplicable => Ok(()),
             Exec::Fail { assertion, .. } => {
                 *failed_once.borrow_mut() = true;
+                if assertion == "diverges" || assertion == "resource-exhaustion" {
+                    *slow_failures.borrow_mut() += 1;
+                }
                 Err(TestCaseError::fail(assertion))
             }
             Exec::Infra(e) => {
